@@ -1,6 +1,6 @@
 //! C12 driver: executes layered-cache programs on the real `MultiLayerCacheImpl<RibbitKey>`.
 //!
-//! usage: drv_multilayer --programs <file> --out <file> [--jobs J] [--timeout-ms T]
+//! usage: drv_multilayer --programs <file> --out <file> [--jobs J] [--timeout-ms T] [--max-hangs N]
 //!        drv_multilayer --random N --len L --out <file> [--dump-programs <file>] [--avoid-hang]
 //!
 //! Program: {"kinds":["mem","disk"],"caps":[1,1000],"hooks":false,"keys":["a","b"],
@@ -390,22 +390,25 @@ fn run_random(prog: &Value, out: &Emit) {
     }
 }
 
-fn run_all(programs: Vec<Value>, out: &mut Out, timeout: Duration) -> (u64, u64) {
-    // run_with_watchdog gives up after MAX_ABANDONED hangs; a hang is an expected outcome here, so go on
-    // with the programs it skipped
-    let mut rest = programs;
+/// Run the programs under the shared watchdog.  A hang costs the whole timeout and leaves a blocked thread
+/// behind, so after `max_hangs` of them the remaining programs of this job are skipped (and counted): the
+/// hangs already recorded are judged, the check does not wait hours for the same defect again.  The
+/// programs are handed to run_with_watchdog a few at a time so that the budget is looked at often.
+fn run_all(programs: Vec<Value>, out: &mut Out, timeout: Duration, max_hangs: u64) -> (u64, u64, u64) {
+    const CHUNK: usize = 4;
     let (mut done, mut hangs) = (0u64, 0u64);
-    loop {
-        let total = rest.len();
-        let st = run_with_watchdog(rest.clone(), out, timeout, run_program);
+    let mut i = 0usize;
+    while i < programs.len() {
+        if hangs >= max_hangs {
+            return (done, hangs, (programs.len() - i) as u64);
+        }
+        let end = (i + CHUNK).min(programs.len());
+        let st = run_with_watchdog(programs[i..end].to_vec(), out, timeout, run_program);
         done += st.programs;
         hangs += st.hangs;
-        if st.skipped == 0 {
-            break;
-        }
-        rest = rest.split_off(total - st.skipped as usize);
+        i = end - st.skipped as usize; // run_with_watchdog itself gives up after MAX_ABANDONED hangs
     }
-    (done, hangs)
+    (done, hangs, 0)
 }
 
 fn main() {
@@ -414,6 +417,7 @@ fn main() {
     let args: Vec<String> = std::env::args().collect();
     let out_path = arg(&args, "--out").expect("--out <file>");
     let timeout = Duration::from_millis(arg_u64(&args, "--timeout-ms", 5000));
+    let max_hangs = arg_u64(&args, "--max-hangs", 3);
     let mut programs = vec![];
     if let Some(p) = arg(&args, "--programs") {
         programs = read_programs(&p);
@@ -435,17 +439,18 @@ fn main() {
         let part2 = part.clone();
         handles.push((part, std::thread::spawn(move || {
             let mut out = Out::to_path(Path::new(&part2));
-            let r = run_all(chunk, &mut out, timeout);
+            let r = run_all(chunk, &mut out, timeout, max_hangs);
             out.flush();
             (r, out.events)
         })));
     }
-    let (mut done, mut hangs, mut events) = (0u64, 0u64, 0u64);
+    let (mut done, mut hangs, mut skipped, mut events) = (0u64, 0u64, 0u64, 0u64);
     let mut w = std::io::BufWriter::new(std::fs::File::create(&out_path).expect("create trace file"));
     for (part, h) in handles {
-        let ((d, hg), ev) = h.join().expect("job thread");
+        let ((d, hg, sk), ev) = h.join().expect("job thread");
         done += d;
         hangs += hg;
+        skipped += sk;
         events += ev;
         let mut f = std::fs::File::open(&part).expect("open part");
         std::io::copy(&mut f, &mut w).expect("concatenate");
@@ -453,7 +458,7 @@ fn main() {
     }
     drop(w);
     let _ = std::fs::remove_dir_all(scratch());
-    eprintln!("{}", json!({"programs": done, "events": events, "hangs": hangs}));
+    eprintln!("{}", json!({"programs": done, "events": events, "hangs": hangs, "skipped": skipped}));
     // threads blocked inside the code under test cannot be joined
     std::process::exit(0);
 }
